@@ -1596,19 +1596,50 @@ def slot_pairing(fn):
     order = sorted((n for n in pf.walk_no_nested(fn) if isinstance(n, (ast.Assign, ast.Expr))),
                    key=lambda n: (n.lineno, n.col_offset))
 
-    def template(e):
+    def template(e, env=None):
         if isinstance(e, ast.Call) and pf.call_name(e) in ("np.zeros_like", "numpy.zeros_like", "np.empty_like") and e.args:
-            return pf.src(e.args[0])
+            a = e.args[0]
+            if env and isinstance(a, ast.Name) and a.id in env:
+                return env[a.id]
+            return pf.src(a)
+        return None
+
+    def template_list(v):
+        """templates of the elements of a list-valued expression of zeros_like buffers, or None"""
+        if isinstance(v, (ast.List, ast.Tuple)):
+            ts = [template(x) for x in v.elts]
+            return ts if v.elts and all(ts) else None
+        if isinstance(v, ast.Call) and pf.call_name(v) in ("tuple", "list") and len(v.args) == 1:
+            if isinstance(v.args[0], ast.Name) and v.args[0].id in lists:
+                return lists[v.args[0].id]
+            return template_list(v.args[0])
+        if isinstance(v, ast.BinOp) and isinstance(v.op, ast.Add):
+            l, r = template_list(v.left), template_list(v.right)
+            return (l + r) if (l is not None and r is not None) else None
+        if isinstance(v, (ast.ListComp, ast.GeneratorExp)) and len(v.generators) == 1 and not v.generators[0].ifs \
+                and isinstance(v.generators[0].target, ast.Name):
+            # [np.zeros_like(r) for r in T] / for r in T[:k]: element i is shaped like T[i]
+            it = v.generators[0].iter
+            n_el = 6
+            if isinstance(it, ast.Subscript) and isinstance(it.slice, ast.Slice) and it.slice.lower is None \
+                    and it.slice.step is None and isinstance(it.slice.upper, ast.Constant):
+                n_el, it = it.slice.upper.value, it.value
+            if isinstance(it, (ast.Name, ast.Attribute)) and isinstance(n_el, int):
+                out_ = []
+                for i in range(n_el):
+                    t_ = template(v.elt, {v.generators[0].target.id: "%s[%d]" % (pf.src(it), i)})
+                    if t_ is None:
+                        return None
+                    out_.append(t_)
+                return out_
         return None
 
     for n in order:
         if isinstance(n, ast.Assign) and len(n.targets) == 1 and isinstance(n.targets[0], ast.Name):
             t, v = n.targets[0].id, n.value
-            if isinstance(v, (ast.List, ast.Tuple)) and v.elts and all(template(x) for x in v.elts):
-                lists[t] = [template(x) for x in v.elts]
-            elif isinstance(v, ast.Call) and pf.call_name(v) in ("tuple", "list") and v.args \
-                    and isinstance(v.args[0], ast.Name) and v.args[0].id in lists:
-                lists[t] = lists[v.args[0].id]
+            tl = template_list(v)
+            if tl is not None:
+                lists[t] = tl
         elif isinstance(n, ast.Expr) and isinstance(n.value, ast.Call) and isinstance(n.value.func, ast.Attribute) \
                 and n.value.func.attr == "append" and isinstance(n.value.func.value, ast.Name) \
                 and n.value.func.value.id in lists and n.value.args and template(n.value.args[0]):
